@@ -277,6 +277,17 @@ func processedBeforeReturn(p *core.Program, fn *ssa.Function, at ssa.Instruction
 	}
 	if call, ok := root.(*ssa.Call); ok {
 		if f := call.Call.StaticCallee(); f != nil && procs[f] {
+			// ... and this function gives it nothing back afterwards: no attribute set on, nothing
+			// attached to the processed tree (removals are fine)
+			for _, in := range instrsOf(fn) {
+				ci, isCall := in.(ssa.CallInstruction)
+				if !isCall || len(ci.Common().Args) == 0 || ci.Common().Args[0] != root {
+					continue
+				}
+				if core.IsCallTo(ci, "github.com/go-shiori/dom.SetAttribute") || core.IsCallTo(ci, treeAdders...) {
+					return false, fmt.Sprintf("%s at %s modifies the tree after %s processed it", core.CalleeKey(ci), p.Pos(in.Pos()), core.ShortKey(f))
+				}
+			}
 			return true, "result of " + core.ShortKey(f) + " (processes everything it returns)"
 		}
 	}
